@@ -65,7 +65,7 @@ CountValue(p) == p.addr[1] * LoMod + p.addr[2]
 \* ------------------------------------------------------ streaming reader
 RdInit == [cov |-> <<>>, nrec |-> 0, nhdr |-> 0, term |-> FALSE, ttyp |-> 0, entry |-> <<0, 0>>, widest |-> 0,
            nbad |-> 0, nforeign |-> 0, ndup |-> 0, nafter |-> 0, ncount |-> 0, ev |-> "init"]
-Ev(n, name) == IF n = 0 THEN name ELSE "more"
+Ev(n, name) == IF n < 3 THEN name ELSE "more"
 RdAfterTerm(rd) == [rd EXCEPT !.nafter = @ + 1, !.ev = Ev(rd.nafter, "after")]
 RdBad(rd)       == [rd EXCEPT !.nbad = @ + 1, !.ev = Ev(rd.nbad, "bad")]
 RdHeader(rd, p) == [rd EXCEPT !.nhdr = @ + 1, !.ev = "ok"]            \* header text is not memory contents
